@@ -638,6 +638,8 @@ void trace_fourth_order() {
   }
 }
 
+#include "C02/trace_extra.hxx"
+
 #ifndef C02_PART
 #define C02_PART 0
 #endif
@@ -661,6 +663,15 @@ int main() {
   }
   if constexpr (C02_PART == 0 || C02_PART == 5) {
     trace_fourth_order<3, FAM_TS | FAM_S2T>();
+  }
+  if constexpr (C02_PART == 0 || C02_PART == 6) {
+    // second batch (trace_extra.hxx): functions of the anchored files that the units above do not call
+    trace_tensor_extra<1>();
+    trace_tensor_extra<2>();
+    trace_tensor_extra<3>();
+    trace_fourth_order_extra<1>();
+    trace_fourth_order_extra<2>();
+    trace_fourth_order_extra<3>();
   }
   return 0;
 }
